@@ -46,8 +46,12 @@ func RegisterInputValidator(k int, v string) error {
 	if ok {
 		return fmt.Errorf("input checker with key '%d' already registered", k)
 	}
-	preInputRegexStr[k], err = regexp.Compile(v)
-	return err
+	re, err := regexp.Compile(v)
+	if err != nil {
+		return err
+	}
+	preInputRegexStr[k] = re
+	return nil
 }
 
 // CheckInput validates the given byte string as client input.
